@@ -266,7 +266,7 @@ def run(ctx: Ctx):
         except InfraError:
             drv = None
     run_cases(ctx, _fixed_cases(), drv, "convert")
-    n = ctx.budget(1500, 40000)
+    n = ctx.budget(2500, 36000)
     batch = 500
     done = 0
     while done < n:
